@@ -24,6 +24,9 @@ pub struct TestFn {
     pub slow: bool,
     pub fixture_param: bool,
     pub is_async: bool,
+    /// decorator lines in source order (when a test carries several markers their order is part of the input)
+    #[serde(default)]
+    pub marker_order: Vec<String>,
 }
 
 #[derive(Serialize, Deserialize, Clone, Debug, PartialEq)]
@@ -57,14 +60,19 @@ fn render_file(f: &TestFile) -> String {
         s.push_str(&format!("@fixture\ndef fx_{stem}() -> int:\n    return 1\n\n"));
     }
     for t in &f.tests {
-        if t.skip {
-            s.push_str("@skip(\"not now\")\n");
+        let mut order: Vec<String> = t.marker_order.clone();
+        for (flag, name) in [(t.skip, "skip"), (t.xfail, "xfail"), (t.slow, "slow")] {
+            if flag && !order.iter().any(|m| m == name) {
+                order.push(name.to_string());
+            }
         }
-        if t.xfail {
-            s.push_str("@xfail(\"known\")\n");
-        }
-        if t.slow {
-            s.push_str("@slow\n");
+        for m in &order {
+            match m.as_str() {
+                "skip" if t.skip => s.push_str("@skip(\"not now\")\n"),
+                "xfail" if t.xfail => s.push_str("@xfail(\"known\")\n"),
+                "slow" if t.slow => s.push_str("@slow\n"),
+                _ => {}
+            }
         }
         let params = if t.fixture_param { format!("fx_{stem}: int") } else { String::new() };
         let kw = if t.is_async { "async def" } else { "def" };
@@ -119,16 +127,22 @@ pub fn gen_scn(seed: u64) -> Scn {
                 6..=8 => "fail",
                 _ => "panic",
             };
-            let m = r.below(10);
-            tests.push(TestFn {
-                name,
-                outcome: outcome.to_string(),
-                skip: m == 0 || m == 1,
-                xfail: m == 2 || m == 3,
-                slow: r.chance(1, 6),
-                fixture_param: r.chance(1, 10),
-                is_async: false,
-            });
+            let m = r.below(12);
+            let (skip, xfail) = match m {
+                0 | 1 => (true, false),
+                2 | 3 => (false, true),
+                4 => (true, true), // both markers: @skip still means "not run"
+                _ => (false, false),
+            };
+            let slow = r.chance(1, 6);
+            let mut marker_order: Vec<String> = Vec::new();
+            for (flag, name) in [(skip, "skip"), (xfail, "xfail"), (slow, "slow")] {
+                if flag {
+                    marker_order.push(name.to_string());
+                }
+            }
+            r.shuffle(&mut marker_order);
+            tests.push(TestFn { name, outcome: outcome.to_string(), skip, xfail, slow, fixture_param: r.chance(1, 10), is_async: false, marker_order });
         }
         files.push(TestFile { path, tests, discoverable: true, parses: !r.chance(1, 25) });
     }
@@ -142,7 +156,7 @@ pub fn gen_scn(seed: u64) -> Scn {
     }
     let decoy = |path: &str, name: &str| TestFile {
         path: path.to_string(),
-        tests: vec![TestFn { name: name.to_string(), outcome: "fail".into(), skip: false, xfail: false, slow: false, fixture_param: false, is_async: false }],
+        tests: vec![TestFn { name: name.to_string(), outcome: "fail".into(), skip: false, xfail: false, slow: false, fixture_param: false, is_async: false, marker_order: vec![] }],
         discoverable: false,
         parses: true,
     };
@@ -323,10 +337,12 @@ fn parse_summary(out: &str) -> Option<BTreeMap<String, u64>> {
 
 fn feature_string(t: &TestFn, scn: &Scn) -> String {
     let mut f = Vec::new();
-    if t.skip {
+    if t.skip && t.xfail {
+        let first = t.marker_order.iter().find(|m| *m == "skip" || *m == "xfail").map(|m| m.as_str()).unwrap_or("skip");
+        f.push(if first == "skip" { "skip-above-xfail" } else { "xfail-above-skip" });
+    } else if t.skip {
         f.push("skip");
-    }
-    if t.xfail {
+    } else if t.xfail {
         f.push("xfail");
     }
     if t.slow {
@@ -638,7 +654,7 @@ fn real_cargo_out(scn: &Scn, root: &Path, r: world::ProcOut) -> RunOut {
 
 /// The calibration scenario: one of everything, bodies that really pass / fail an assertion / panic.
 pub fn calibration_scn() -> Scn {
-    let t = |name: &str, outcome: &str, skip: bool, xfail: bool, slow: bool, fx: bool| TestFn { name: name.into(), outcome: outcome.into(), skip, xfail, slow, fixture_param: fx, is_async: false };
+    let t = |name: &str, outcome: &str, skip: bool, xfail: bool, slow: bool, fx: bool| TestFn { name: name.into(), outcome: outcome.into(), skip, xfail, slow, fixture_param: fx, is_async: false, marker_order: vec![] };
     Scn {
         files: vec![TestFile {
             path: "test_calibration.incn".into(),
